@@ -104,6 +104,9 @@ def catalogue():
                'data/2021-draft/', 'data/2021-draft/x.csv', 'data/index', 'data/private/', 'data/private/key.pem',
                'database/', 'database/dump.sql')
     tree3 = _t('m/', 'm/x1', 'm/x2', 'm/xd/', 'm/xd/in', 'm/y*', 'm/[x]1', 'm/z/', 'm/z/x9')
+    tree4 = _t('pub/', 'pub/docs/', 'pub/docs/ok.txt', 'pub/docs/..%2F..%2Fprivate%2Fsecret.txt', 'pub/docs/%2E%2E/',
+               'pub/docs/%2e/', 'pub/docs/sub/', 'pub/docs/sub/%2E%2E%2F%2E%2E%2Ftop.txt', 'private/', 'private/secret.txt',
+               'pub/top.txt')
     sc = []
 
     def add(tree, starts, opt, dots=False, mlsd=False, conc=1):
@@ -150,6 +153,10 @@ def catalogue():
         add(tree2, _s('data/'), O(r=True, lvl=2, acc=['csv'], exc=[['data', '2020']]), conc=conc, mlsd=True, dots=True)
         add(tree2, _s('da*'), O(r=True, lvl=2), conc=conc)
         add(tree2, _s('da*'), O(), conc=conc, dots=True)
+        # entry names that turn into OTHER paths when percent-decoded (the client sends the decoded path)
+        add(tree4, _s('pub/docs/'), O(r=True, np=True), conc=conc)
+        add(tree4, _s('pub/docs/'), O(r=True, exc=[['private']]), conc=conc)
+        add(tree4, _s('pub/docs/'), O(r=True, inc=[['pub', 'docs']]), conc=conc, mlsd=True)
         # names with glob characters
         add(tree3, _s('m/'), O(r=True), conc=conc)
         add(tree3, _s('m/x*'), O(), conc=conc)
@@ -264,6 +271,11 @@ def strict_trace(scen, rec):
                 kids = [{'u': k['u'], 'lvl': k['lvl'], 'lt': k['lt']} for k in evs[i + 1]['kids'] if k['new']]
                 i += 1
             out.append({'e': 'fin', 'u': e['u'], 'st': e['st'], 'kids': kids})
+        elif e['e'] == 'add' and not e['seed'] and i + 1 < len(evs) and evs[i + 1]['e'] == 'in' and evs[i + 1]['u'] == e['item']:
+            # the children are stored first, then the status of the listing (one "fin" step of the model either way)
+            kids = [{'u': k['u'], 'lvl': k['lvl'], 'lt': k['lt']} for k in e['kids'] if k['new']]
+            out.append({'e': 'fin', 'u': e['item'], 'st': evs[i + 1]['st'], 'kids': kids})
+            i += 1
         elif e['e'] == 'add' and not e['seed']:
             out.append({'e': 'orphan-add', 'u': e['item'], 'kids': []})
         i += 1
@@ -367,7 +379,9 @@ def validate(chk, items, tag, nchunk=4):
             if kind_mismatch:
                 chk.drifted('a path inside the scope was asked for with the other kind of command (LIST vs RETR): '
                             + summary, None)
-            if not s['accepted']:
+            # names with percent escapes that decode to other paths are outside the vocabulary of the model (monitored only)
+            odd = any('%' in seg for ent in scen['tree'] for seg in ent['p'])
+            if not s['accepted'] and not odd:
                 nxt = stt['ev'][s['matched']] if s['matched'] < len(stt['ev']) else None
                 chk.drifted('strict FtpScope.tla rejects event %d %s of: %s' % (s['matched'], json.dumps(nxt), summary),
                             {'origin': origin})
